@@ -931,7 +931,41 @@ func runEngine(b block) {
 							unit = probe.SolutionPlanUnit(u)
 						}
 						ok, err := probe.BestMove(context.Background(), unit).Execute(context.Background())
-						truthful = strconv.FormatBool(ok && err == nil)
+						can := ok && err == nil
+						if !can {
+							// the best move by estimate may be refused by an exact check (optimistic estimates): the unit
+							// can be planned if ANY placement executes - every vehicle's own best move, and for a single
+							// stop every position of every vehicle
+							for vi := range before.Vehicles() {
+								if can {
+									break
+								}
+								p2 := before.Copy()
+								var u2 nextroute.SolutionPlanUnit = p2.SolutionPlanStopsUnit(ms.PlanStopsUnit())
+								if u, ok := ms.PlanStopsUnit().PlanUnitsUnit(); ok {
+									u2 = p2.SolutionPlanUnit(u)
+								}
+								if ok, err := p2.Vehicles()[vi].BestMove(context.Background(), u2).Execute(context.Background()); ok && err == nil {
+									can = true
+									break
+								}
+								if su, isStops := u2.(nextroute.SolutionPlanStopsUnit); isStops && len(su.SolutionStops()) == 1 {
+									n := len(before.Vehicles()[vi].SolutionStops())
+									for g := 1; g < n && !can; g++ {
+										p3 := before.Copy()
+										su3 := p3.SolutionPlanStopsUnit(ms.PlanStopsUnit())
+										route := p3.Vehicles()[vi].SolutionStops()
+										pos := nextroute.VerifStopPosition(route[g-1], su3.SolutionStops()[0], route[g])
+										if mv, err := nextroute.VerifNewMoveStopsUnchecked(su3, nextroute.StopPositions{pos}); err == nil {
+											if ok, err := mv.Execute(context.Background()); ok && err == nil {
+												can = true
+											}
+										}
+									}
+								}
+							}
+						}
+						truthful = strconv.FormatBool(can)
 					}
 					fmt.Fprintf(out, "%s %d Q check unit %s plannable %v failed %v truthful %s\n", b.id, step,
 						strings.Join(pu.Stops, ","), pu.HasPlannableBestMove, pu.BestMoveFailed, truthful)
